@@ -35,9 +35,16 @@ def kv_universe():
         # tag values that are arrays / objects: they reach the index as Python lists on the way in and as msgpack tuples on the way out
         E("tv", "B", 1, 27, [["e", "vlist"], ["t", "a"], ["q", "vobj"]]),
         E("dv", "B", 5, 40, [["e", "tv"]]),
-        # tag values that are equal to Python and different as JSON (1, 1.0, true): each event is indexed under its own value's text
+    ]
+
+
+def kv_universe_equal_values():
+    """a second, small universe (LMDB key space only): tag values that are equal to Python and different as JSON (1, 1.0, true) -
+    each event is indexed under its own value's text - with a deletion of two of them and a replaceable pair"""
+    return [
         E("ni", "A", 1, 41, [["t", "i1"]]), E("nf", "A", 1, 42, [["t", "f1"]]), E("nb", "B", 1, 43, [["t", "bT"]]),
         E("dn", "A", 5, 44, [["e", "ni"], ["e", "nf"]]),
+        E("ri", "A", 10000, 45, [["t", "i1"]]), E("rf", "A", 10000, 46, [["t", "f1"]]), E("n0", "A", 1, 8),
     ]
 
 
@@ -89,12 +96,12 @@ def run(prop, tier, seed, backends=("lmdb",), **kw):
     out = Outcome("C10", tier, seed, "model_checking")
     rnd = random.Random(seed)
     design = tlc.DesignCheck([("MC_KvIndex", "MC_KvIndex.cfg", "KvIndex")], workers=2, timeout=600)
-    uni = Universe(kv_universe(), symtab=SYMTAB)
     depth = {"quick": 3, "thorough": 4}[tier]
     cap = {"quick": 800, "thorough": 12000}[tier]
     distinct = set()
     samples = []
-    for drain_each in (True, False):
+    for uni, drain_each in [(Universe(kv_universe(), symtab=SYMTAB), True), (Universe(kv_universe(), symtab=SYMTAB), False),
+                            (Universe(kv_universe_equal_values(), symtab=SYMTAB), True), (Universe(kv_universe_equal_values(), symtab=SYMTAB), False)]:
         scripts, gstats = gen.gen_store_scripts(uni, "lmdb", depth if drain_each else depth + 1, (15,), drain_each=drain_each, workers=6)
         out.add_model(gstats)
         scripts = sorted(scripts)
